@@ -117,7 +117,8 @@ def check_updater(ctx, c):
                 t = unparse(cn.ast)
                 if (t == f'{sid} in {T}' and br) or (t in (f'{sid} not in {T}', f'not {sid} in {T}') and not br) \
                         or (t in (f'{T}.get({sid}) is None', f'{T}.get({sid}) == None') and not br) \
-                        or (t in (f'{T}.get({sid}) is not None', f'{T}.get({sid}) != None', f'{T}.get({sid})') and br):
+                        or (t in (f'{T}.get({sid}) is not None', f'{T}.get({sid}) != None', f'{T}.get({sid})') and br) \
+                        or (t == f'not {T}.get({sid})' and not br):
                     guarded = True
             # the lookup inside the test itself: `sid in T and T[sid] ...`
             if not guarded and node is not None and node.kind == 'cond' and isinstance(node.ast, ast.BoolOp) and isinstance(node.ast.op, ast.And):
@@ -188,6 +189,19 @@ def check_updater(ctx, c):
             refused = any((ge.ev(cd) is not None and ge.ev(cd) != br) for (cd, br) in rg)
             if not refused:
                 bad.append((tname, '-', False, True))
+        # a stream that IS listed, with an empty seed list: every replication number is beyond the list and must be refused
+        if tables:
+            from ..guards import RAISE, eval_decision_list
+            T = f'self.{sorted(tables)[0]}'
+            env = {('ord', rep, '0'): 'gt', ('bool', f'isinstance({rep}, int)'): True, ('bool', f'isinstance({sid}, str)'): True,
+                   ('bool', f'isinstance({stream}, StreamInterface)'): True, ('bool', f'{sid} in {T}'): True, ('isnone', f'{T}.get({sid})'): False,
+                   ('bool', f'{T}.get({sid})'): False, ('bool', f'{T}[{sid}]'): False}
+            for L in lens:
+                env[('ord', rep, L)] = 'gt'
+            r = eval_decision_list(body_of(fn), GuardEval(prog, c, env))
+            ctx.examined()
+            if r != RAISE:
+                bad.append(('listed stream with an empty seed list', 'r > len = 0', False, True))
         ok = not bad
         ctx.ob('R13.4', f'{c}.update_seed:raise-set', ok, sample=f'{c}.update_seed: set_seed guarded by {[short(cd, 40) for cd, _ in rg]}; mismatches {bad}')
         if not ok:
@@ -200,24 +214,36 @@ def check_updater(ctx, c):
 
 def driver(ctx):
     prog = ctx.prog
-    ci = prog.cls('StreamUpdater')
-    fn = prog.method('StreamUpdater', 'update_seeds', inherited=False)
-    streams, rep = fn.args.args[1].arg, fn.args.args[2].arg
-    loops = [l for l in walk_shallow(fn) if isinstance(l, ast.For)]
-    ok = False
-    if len(loops) == 1:
-        l = loops[0]
-        it = unparse(l.iter)
-        calls = [x for s in l.body for x in ast.walk(s) if isinstance(x, ast.Call) and isinstance(x.func, ast.Attribute) and x.func.attr == 'update_seed']
-        if len(calls) == 1 and len(l.body) == 1:
-            a = [unparse(x) for x in calls[0].args]
-            if it in (f'{streams}.keys()', streams) and isinstance(l.target, ast.Name):
-                k = l.target.id
-                ok = a == [k, f'{streams}[{k}]', rep]
-            elif it == f'{streams}.items()' and isinstance(l.target, ast.Tuple) and len(l.target.elts) == 2:
-                k, v = unparse(l.target.elts[0]), unparse(l.target.elts[1])
-                ok = a == [k, v, rep]
-    ctx.ob('R13.3', 'StreamUpdater.update_seeds', ok, sample=f'update_seeds: {short(loops[0], 120) if loops else "no loop"}')
-    if not ok:
-        ctx.finding('R13.3', 'StreamUpdater.update_seeds', ci, fn, 'update_seeds must call update_seed exactly once per key with that key\'s own stream and the replication number',
-                    where='StreamUpdater.update_seeds')
+    for c in prog.subclasses('StreamUpdater', strict=False):
+        ci = prog.cls(c)
+        fn = ci.methods.get('update_seeds')
+        if fn is None:
+            continue
+        streams, rep = fn.args.args[1].arg, fn.args.args[2].arg
+        loops = [l for l in walk_shallow(fn) if isinstance(l, (ast.For, ast.comprehension))]
+        ok = bool(loops)
+        why = 'no loop over the streams'
+        seen_call = False
+        for l in loops:
+            it = unparse(l.iter)
+            if it not in (f'{streams}.keys()', streams, f'{streams}.items()', f'list({streams}.keys())', f'list({streams}.items())', f'list({streams})'):
+                ok = False
+                why = f'iterates `{it}` instead of the streams dict in its own order'
+        for l in [x for x in loops if isinstance(x, ast.For)]:
+            it = unparse(l.iter)
+            calls = [x for s_ in l.body for x in ast.walk(s_) if isinstance(x, ast.Call) and isinstance(x.func, ast.Attribute) and x.func.attr == 'update_seed']
+            if len(calls) == 1 and len(l.body) == 1:
+                a = [unparse(x) for x in calls[0].args]
+                if isinstance(l.target, ast.Name):
+                    k = l.target.id
+                    seen_call = seen_call or a == [k, f'{streams}[{k}]', rep]
+                elif isinstance(l.target, ast.Tuple) and len(l.target.elts) == 2:
+                    k, v = unparse(l.target.elts[0]), unparse(l.target.elts[1])
+                    seen_call = seen_call or a == [k, v, rep]
+        if ok and not seen_call:
+            ok = False
+            why = 'update_seed is not called once per key with that key\'s own stream and the replication number'
+        ctx.ob('R13.3', f'{c}.update_seeds', ok, sample=f'{c}.update_seeds: {[short(l.iter) for l in loops]}: {ok}')
+        if not ok:
+            ctx.finding('R13.3', f'{c}.update_seeds', ci, fn, f'update_seeds {why}: the seeds (or the order in which a stateful fallback sees the streams) can depend on hash order / listing order',
+                        where=f'{c}.update_seeds')
